@@ -185,7 +185,9 @@ def u8(s):
 
 NAMES = ["a", "b", "chr1", "seq0", "X", u8("chr\u03a9"), u8("\u00e9\u20ac"),
          # names with the characters other notations use as separators (a contig name is any run of non-blank characters)
-         "HLA-A*01:01:01", "chr6:alt|x", "c-+:"]
+         "HLA-A*01:01:01", "chr6:alt|x", "c-+:",
+         # a carriage return inside a name is part of the name (only a CR directly before the LF belongs to the terminator)
+         "a\rb"]
 
 
 def gen_blocks(rng, shape):
